@@ -142,16 +142,19 @@ class BinningBase:
         # TODO: Document and explain
         return self._includes_right_edge
 
-    def is_regular(self, *, rtol: float = 1.0e-5, atol: float = 1.0e-8) -> bool:
+    def is_regular(self, *, rtol: float = 1.0e-5, atol: float = 0.0) -> bool:
         """Whether all bins have the same width.
 
         Parameters
         ----------
         rtol, atol : numpy tolerance parameters
         """
-        return np.allclose(
-            np.diff(self.bins[:, 1] - self.bins[:, 0]), 0.0, rtol=rtol, atol=atol
-        )
+        widths = self.bins[:, 1] - self.bins[:, 0]
+        if not widths.size:
+            return True
+        # Relative to the widths themselves (differences compared with zero would leave
+        # the absolute tolerance only: every binning of nanoseconds would be regular)
+        return bool(np.allclose(widths, widths[0], rtol=rtol, atol=atol))
 
     def is_consecutive(self, rtol: float = 0.0, atol: float = 0.0) -> bool:
         """Whether all bins are in a growing order.
